@@ -9,6 +9,8 @@ mod c11;
 mod doc;
 mod c02;
 mod c06;
+mod maps;
+mod c01;
 
 pub use util::*;
 
@@ -25,6 +27,8 @@ fn props() -> Vec<Prop> {
         Prop { id: "C11", run: c11::run, gen: c11::gen },
         Prop { id: "C02", run: c02::run, gen: c02::gen },
         Prop { id: "C06", run: c06::run, gen: c06::gen },
+        Prop { id: "C01", run: c01::run, gen: c01::gen },
+        Prop { id: "C03", run: c01::run_c03, gen: c01::gen },
     ]
 }
 
